@@ -222,24 +222,24 @@ fn gen_c17(r: &mut Rng, thorough: bool) -> Sc {
 /// the enumerated storage faults on the bundled images: every header truncation offset, a stride
 /// through the rest, and every header / program header / section header / symbol field set to
 /// every boundary value. Independent of VERIF_SEED.
-fn enumerated() -> &'static Vec<(usize, Mutation)> {
-    static T: OnceLock<Vec<(usize, Mutation)>> = OnceLock::new();
+fn enumerated() -> &'static Vec<(usize, Vec<Mutation>)> {
+    static T: OnceLock<Vec<(usize, Vec<Mutation>)>> = OnceLock::new();
     T.get_or_init(|| {
-        let mut v: Vec<(usize, Mutation)> = Vec::new();
+        let mut v: Vec<(usize, Vec<Mutation>)> = Vec::new();
         for (bi, (_, bytes)) in BUNDLED.iter().enumerate() {
             let len = bytes.len() as u64;
             let h = locate(bytes);
             let hdr_end = (h.phoff + 56 * h.phnum).min(len);
             for t in 0..=hdr_end {
-                v.push((bi, Mutation::Truncate { len: t }));
+                v.push((bi, vec![Mutation::Truncate { len: t }]));
             }
             let stride = ((len - hdr_end) / 160).max(1);
             let mut t = hdr_end + 1;
             while t < len {
-                v.push((bi, Mutation::Truncate { len: t }));
+                v.push((bi, vec![Mutation::Truncate { len: t }]));
                 t += stride;
             }
-            v.push((bi, Mutation::Truncate { len: len - 1 }));
+            v.push((bi, vec![Mutation::Truncate { len: len - 1 }]));
             let mut fields: Vec<(String, u64, String)> = Vec::new();
             for f in E_FIELDS.iter() {
                 fields.push(("e".into(), 0, f.0.into()));
@@ -268,7 +268,37 @@ fn enumerated() -> &'static Vec<(usize, Mutation)> {
                         }
                     }
                     for val in boundary_values(cur, len, &field) {
-                        v.push((bi, Mutation::Field { table: table.clone(), idx, field: field.clone(), value: val }));
+                        v.push((bi, vec![Mutation::Field { table: table.clone(), idx, field: field.clone(), value: val }]));
+                    }
+                }
+            }
+            // second order on the program headers of the small images: every defined segment type
+            // combined with extreme sizes / offsets / addresses (each type has its own code path in the loader)
+            if bytes.len() < 20_000 {
+                for i in 0..h.phnum {
+                    for ty in [0u64, 1, 2, 3, 4, 5, 6, 7, 0x6474_e550, 0x6474_e551, 0x6474_e552, 0x6474_e553] {
+                        for field in ["p_memsz", "p_filesz", "p_offset", "p_vaddr"] {
+                            for val in [0u64, (1 << 28) + 1, 1 << 32, 1 << 63, u64::MAX] {
+                                v.push((
+                                    bi,
+                                    vec![
+                                        Mutation::Field { table: "p".into(), idx: i, field: "p_type".into(), value: ty },
+                                        Mutation::Field { table: "p".into(), idx: i, field: field.into(), value: val },
+                                    ],
+                                ));
+                                if field == "p_memsz" {
+                                    // ... and the segment moved away from every loaded area
+                                    v.push((
+                                        bi,
+                                        vec![
+                                            Mutation::Field { table: "p".into(), idx: i, field: "p_type".into(), value: ty },
+                                            Mutation::Field { table: "p".into(), idx: i, field: field.into(), value: val },
+                                            Mutation::Field { table: "p".into(), idx: i, field: "p_vaddr".into(), value: 0x7000_0000 },
+                                        ],
+                                    ));
+                                }
+                            }
+                        }
                     }
                 }
             }
@@ -322,7 +352,7 @@ fn gen_c16(r: &mut Rng, idx: u64) -> Sc {
     let mk = |base: Base, muts: Vec<Mutation>| Sc { kind: "c16".into(), base, muts, argv: vec![], envp: vec![], stack_len: 0, blockers: vec![] };
     if (idx as usize) < en.len() {
         let (bi, m) = &en[idx as usize];
-        return mk(Base::Bundled { name: BUNDLED[*bi].0.to_string() }, vec![m.clone()]);
+        return mk(Base::Bundled { name: BUNDLED[*bi].0.to_string() }, m.clone());
     }
     match r.below(10) {
         0 => {
